@@ -33,11 +33,11 @@ def declarations(doc):
             if kind == 'ns':
                 walk(node[2], scope + list(node[1]))
             elif kind in SEARCHED:
-                out.append(Decl(kind, scope + [node[1]], node, scope))
+                out.append(Decl(kind, scope + D.nid(node[1]), node, scope))
                 if kind == 'interface':
                     for typ in node[2]:
                         if typ[0] in ('enum', 'subint'):
-                            out.append(Decl(typ[0], scope + [node[1], typ[1]], typ, scope + [node[1]]))
+                            out.append(Decl(typ[0], scope + D.nid(node[1]) + [typ[1]], typ, scope + D.nid(node[1])))
 
     walk(doc, [])
     return out
@@ -278,6 +278,7 @@ BASE_POINT = {
     'mcmenu': 'full',     # D9c: full = claim, release, two other in-events, two out-events | bare = claim, release, one out-event
     'kind': 'component',  # D10
     'prefix': '',         # D11: '' | 'Other.Project'
+    'nameform': 'plain',  # D13: how port names reach the configuration: plain str | instances of a str subclass with its own __str__
     'stem': 'M',          # D12: name of the Dezyne source file (= prefix of the shell's name): 'M' | a 52-character name
 }
 
@@ -301,6 +302,7 @@ DIMS = {
     'kind': ['component', 'system'],
     'prefix': ['', 'Other.Project'],
     'stem': ['M', 'VeryLongDezyneModelFileNameForTheHeatingSubsystemCtrl'],
+    'nameform': ['plain', 'subclass'],
 }
 
 PORT_NAMES = {'plain': (['p', 'p2', 'p3'], ['r', 'r2', 'r3'], ['inj', 'inj2', 'inj3']),
@@ -424,6 +426,8 @@ def valid_point(pt):
             return False
     if pt['rsem'] in ('firstmts', 'firststs', 'lastmts', 'laststs') and pt['nreq'] < 2:
         return False
+    if pt.get('nameform', 'plain') != 'plain' and pt['rsem'] in ('allmts', 'allsts') and pt['mc'] == 'none':
+        return False            # no name is written anywhere in such a configuration
     if pt.get('mcsig', 'io') != 'io' and pt['mc'] == 'none':
         return False
     if pt.get('mcmenu', 'full') != 'full' and pt['mc'] == 'none':
@@ -576,6 +580,8 @@ def build_model(pt):
     cfg = {'suffix': 'Shell', 'fac': pt['fac'], 'prefix': pt['prefix'], 'sem': sem,
            'provides': psel, 'requires': rsel, 'mc': None,
            'copyright': 'Copyright (c) verif\nAll rights reserved', 'creator': 'created by vf'}
+    if pt.get('nameform', 'plain') == 'subclass':
+        cfg['names_form'] = 'subclass'
     if mc_port is not None:
         claim, release = CLAIM_NAMES[pt['evnames']]
         cfg['mc'] = {'port': prov[mc_port], 'claim': claim, 'grant': res_enum[2][grant_idx], 'release': release,
@@ -615,6 +621,8 @@ def semantics_origin_cross():
             for fac in DIMS['fac']:
                 pt = dict(BASE_POINT)
                 pt.update({'psem': psem, 'rsem': rsem, 'fac': fac, 'nreq': 2})
+                if fac == 'import' and rsem not in ('allmts', 'allsts'):
+                    pt['nameform'] = 'subclass'       # the import half of the cross product names its ports Enum-like
                 if valid_point(pt):
                     out.append(pt)
     return out
